@@ -413,7 +413,7 @@ def write_replay(prop, payload):
     h = hashlib.sha1(json.dumps(payload, sort_keys=True, default=str).encode()).hexdigest()[:10]
     p = os.path.join(d, "%s.json" % h)
     with open(p, "w") as f:
-        json.dump(payload, f, indent=1, sort_keys=True, default=str)
+        json.dump(payload, f, indent=1, default=str)      # key order preserved: the order of keys inside an input can be what matters
     return p
 
 
